@@ -1332,7 +1332,7 @@ fn main() {
             d.insert("a".into(), Value::make_str("A")); d.insert("ab".into(), Value::make_str("AB")); d.insert("navName".into(), Value::make_str("Nav"));
             d.insert("equipRef".into(), Value::make_ref_with_dis("e", "Equip 1")); d.insert("num".into(), Value::make_number_unit(5.0, libhaystack::units::get_unit_or_default("kg")));
             for p in ["", "plain text", "no dollars: 100% (a) {b} <c>", "$a", "$ab", "${a}", "${ab}", "x$a.y", "$a$ab", "$equipRef $navName", "${equipRef}-${num}", "$<key>", "$<pod::key>", "$<nokey>",
-                      "$", "$$", "${", "${}", "$<", "$<>", "$1", "\u{e9}$\u{e9}", "${a", "$<a", "$A", "${A}", "$a_b", "$missing", "cost: 5$", "$ $a", "$\u{1F600}", "a$<key>b$<key>"] {
+                      "$", "$$", "${", "${}", "$<", "$<>", "$1", "\u{e9}$\u{e9}", "${a", "$<a", "$A", "${A}", "$a_b", "$missing", "cost: 5$", "$ $a", "$\u{1F600}", "a$<key>b$<key>", "$ab\u{e9}", "$a\u{968e}", "${ab}\u{e9}", "$ab_\u{3a9}x"] {
                 let got = dis_macro(p, |k| d.get(k).map(Cow::Borrowed), loc).to_string();
                 let want = expand(p, &d);
                 n += 1;
